@@ -95,6 +95,7 @@ type Ctl struct {
 	// behaviour of scripted plots
 	CreatePlotted func(key string) bool                    // should a newly created DB be already complete
 	FreeOutcome   func(db *FakeDB) (string, time.Duration) // free-running: outcome and duration
+	StopDelay     func(db *FakeDB) time.Duration           // optional: how long a stopped plot takes to wind down
 	OnPlotStart   func(db *FakeDB)                         // called when a scripted plot starts (any goroutine)
 	real          bool
 }
@@ -230,7 +231,13 @@ type FakeDB struct {
 	ended   chan struct{}
 	Deleted bool
 	Plots   int
+	// Partial is the progress figure (percent, < 100) an unfinished table reports: set when a plot ends without
+	// completing, from a fixed cycle that includes figures a hair below 100
+	Partial float64
 }
+
+// partialFigures: what interrupted plots report; real tables stopped in their last window report such figures.
+var partialFigures = []float64{0, 37.5, 99.96, 50, 99.9996, 12.25, 99.94, 99.99996}
 
 func dbKey(dir string, ord int64, pk *pocec.PublicKey, bl int) string {
 	return fmt.Sprintf("%s|%d|%x|%d", dir, ord, pk.SerializeCompressed(), bl)
@@ -363,7 +370,7 @@ func (d *FakeDB) Progress() (bool, bool, float64) {
 	if d.Done {
 		return true, true, 100
 	}
-	return false, false, 0
+	return d.Partial >= 50, false, d.Partial
 }
 
 // Plot starts a scripted plot: it runs until the harness decides the outcome (Finish), StopPlot is called,
@@ -424,6 +431,8 @@ func (d *FakeDB) Plot() chan error {
 		d.mu.Lock()
 		if out == "complete" {
 			d.Done = true
+		} else {
+			d.Partial = partialFigures[(d.Plots+len(d.Key))%len(partialFigures)]
 		}
 		d.Running = false
 		d.mu.Unlock()
@@ -471,8 +480,18 @@ func (d *FakeDB) StopPlot() chan error {
 	}
 	ended := d.ended
 	d.mu.Unlock()
+	var delay time.Duration
+	d.c.mu.Lock()
+	sd := d.c.StopDelay
+	d.c.mu.Unlock()
+	if sd != nil {
+		delay = sd(d)
+	}
 	go func() {
 		<-ended
+		if delay > 0 {
+			time.Sleep(delay) // a plot that takes a while to wind down (the real one polls its stop channel between blocks)
+		}
 		res <- nil
 	}()
 	return res
